@@ -11,7 +11,7 @@ Import ListNotations.
 From BB Require Import BN Brute SpaceFacts TrapFacts PercolateFacts AttractorFacts Diagram Invariants Checks Filter
   Strict PetriNet Control Meta FilterFacts PetriNetFacts TrappistFacts DiagramStruct DiagramSem1 DiagramCache
   DiagramDepth DiagramComplete Termination ControlFacts MetaFacts Candidates StrictFacts MinExpandFacts CandidatesFacts SymbolicTest SymbolicTestFacts Signed ReductionFacts ControlFacts2 Main Blocks BlocksFacts ObsFacts OwnerFacts CandidatesTerm
-  PartialOwner BlockMath BlockComplete ASeeds ASeedsFacts LogChecks SkipRule SkipRuleFacts Names NamesFacts Perm PermFacts SCC SCCFacts SCCStruct ControlFacts3 SCCTerm FilterSym Main2 StrategyFacts ControlFacts4 PyLib PySrc PySrcFacts SkipRuleFacts2 SCCComplete SCCAttr BlockComplete2 ControlFacts5.
+  PartialOwner BlockMath BlockComplete ASeeds ASeedsFacts LogChecks SkipRule SkipRuleFacts Names NamesFacts Perm PermFacts SCC SCCFacts SCCStruct ControlFacts3 SCCTerm FilterSym Main2 StrategyFacts ControlFacts4 PyLib PySrc PySrcFacts SkipRuleFacts2 SCCComplete SCCAttr BlockComplete2 ControlFacts5 Iso.
 
 Theorem C20_find_node_exact : forall (N : net) (d : sd) (X : list (option bool)) (i : nat), SWF N d -> length X = nvars N -> find_node d X = Some i <-> i < size d /\ n_space (get d i) = X.
 Proof. exact find_node_exact. Qed.
@@ -60,6 +60,13 @@ Proof. exact py_space_unique_key_spec. Qed.
 Theorem C20_source_space_unique_key_raises : forall (n : nat) (d : list (nat * bool)), (exists k : nat, In k (map fst d) /\ n <= k) -> py_space_unique_key d n = None.
 Proof. exact py_space_unique_key_raises. Qed.
 
+(* is_isomorphic = is_subgraph both ways = same node spaces and same edges *)
+Theorem C20_is_isomorphic_spec : forall (N : net) (a b : sd), SWF N a -> SWF N b -> NoStubEdges a -> NoStubEdges b -> Rooted a -> Rooted b -> is_isomorphic_b a b = true <-> (forall X : space, In X (spaces a) <-> In X (spaces b)) /\ edge_pairs_incl a b /\ edge_pairs_incl b a.
+Proof. exact is_isomorphic_b_spec. Qed.
+
+Theorem C20_is_isomorphic_symmetric : forall a b : sd, is_isomorphic_b a b = is_isomorphic_b b a.
+Proof. exact is_isomorphic_b_sym. Qed.
+
 Print Assumptions C20_find_node_exact.
 Print Assumptions C20_find_node_none.
 Print Assumptions C20_step_extends.
@@ -74,3 +81,5 @@ Print Assumptions C20_block_expansion_depth.
 Print Assumptions C20_aseeds_expansion_depth.
 Print Assumptions C20_source_space_unique_key.
 Print Assumptions C20_source_space_unique_key_raises.
+Print Assumptions C20_is_isomorphic_spec.
+Print Assumptions C20_is_isomorphic_symmetric.
